@@ -295,6 +295,13 @@ impl GitSyncServer {
             }
         }
 
+        // Discard changes to tracked files that were never committed: they are left behind by a
+        // write that was interrupted before its commit, and the `meta` file in particular would
+        // otherwise keep naming a version whose file is removed below as a stray file.
+        if git.cmd_ok(local_path, &["rev-parse", "--verify", "--quiet", "HEAD"])? {
+            git.cmd(local_path, &["reset", "--hard", "HEAD"])?;
+        }
+
         // Check for meta file, create and commit if missing.
         let meta_path = local_path.join("meta");
         let meta = match load_meta(&meta_path) {
